@@ -89,7 +89,8 @@ def arma_params(draw, N, equal=False, regions=("well",) * 14 + ("under",) * 5 + 
     else:
         # sampled_from picks the side of the P <= 4 switch uniformly (integers() alone favours small values)
         if draw(st.sampled_from(["P>4", "P<=4"])) == "P<=4" or pmax < 5:
-            P = draw(st.sampled_from(list(range(1, min(4, pmax) + 1))))
+            # P = 0 (a pure MA model through the ARMA interface) satisfies the three inequalities: "exactly P" = none
+            P = draw(st.sampled_from(list(range(1 if equal else 0, min(4, pmax) + 1))))
         else:
             P = draw(st.sampled_from(list(range(5, pmax + 1))))
     qmax = min(10, (N - P - 1) // 2)
@@ -98,7 +99,7 @@ def arma_params(draw, N, equal=False, regions=("well",) * 14 + ("under",) * 5 + 
     elif region == "under":
         Q = draw(st.integers(1, min(qmax, 2 * P - 1)))
     else:
-        Q = draw(st.sampled_from(list(range(1, qmax + 1)) + [1, P if P <= qmax else 1, qmax]))
+        Q = draw(st.sampled_from(list(range(1, qmax + 1)) + [1, P if 1 <= P <= qmax else 1, qmax]))
     hi = min(N - 1, N - 2 * P + Q, 80)
     if region == "well":
         lo = max(Q, 2 * P)
@@ -438,3 +439,14 @@ def c15_layout(ctx, case):
          "in double precision")
 def c15_single(ctx, case):
     _dt.single_body(ctx, case, _dt.TABLES["C15"])
+
+
+# ---- call-form invariance (documented parameter names) ----------------------------
+from vlib import kwcheck as _kw   # noqa: E402
+
+
+@sub("C15.keywords", strategy=_kw.kw_case(_kw.PROPS["C15"]), quick=200, thorough=4000,
+     doc="the same call with its trailing arguments given by their documented names (any split, any order) returns the same "
+         "result as the positional call, and every documented name is accepted: " + ", ".join(_kw.PROPS["C15"]))
+def c15_keywords(ctx, case):
+    _kw.body(ctx, case)
